@@ -34,6 +34,9 @@ func (c *FnCtx) execInstr(fr *Frame, st *State, instr ssa.Instruction) {
 		ref := c.newRef(st, fr.fn.Name()+"."+i.Comment)
 		c.nonNil[ref] = true
 		c.eng.onAlloc(c, st, ref, t)
+		if !isStructVal(t) && singleStoreCell(i) {
+			c.writeOnce[ref] = true
+		}
 		if isStructVal(t) {
 			c.storeStruct(st, t, ref, c.ty.Zero(t))
 		} else {
@@ -81,6 +84,12 @@ func (c *FnCtx) execInstr(fr *Frame, st *State, instr ssa.Instruction) {
 			fr.vals[i] = Val{T: i.Type(), Loc: &Loc{Kind: locElem, Ref: "(s-arr " + x.E + ")", Idx: c.sc.Define("ix", sInt, "(+ (s-off "+x.E+") "+idx+")"), Comp: comp, RootT: xt.Elem()}}
 		case *types.Pointer:
 			at, ok := xt.Elem().Underlying().(*types.Array)
+			if ok && x.E == "" && x.Loc != nil && x.Loc.Kind == locGlobal && len(x.Loc.Path) == 0 {
+				// a package-level array: a fixed backing array in the element heap
+				gn := q("garr$" + strings.TrimPrefix(x.Loc.Comp, "const:"))
+				c.sc.Decl("garr:"+gn, fmt.Sprintf("(declare-const %s Int)\n(assert (and (> %s 0) (< %s |alloc0|)))", gn, gn, gn))
+				x.E = gn
+			}
 			if !ok || x.E == "" {
 				c.unsupported("IndexAddr on %s", i.X.Type())
 			}
@@ -265,8 +274,10 @@ func (c *FnCtx) execUnOp(fr *Frame, st *State, i *ssa.UnOp) {
 	case token.MUL:
 		l := c.ptrLoc(st, x, i.Pos())
 		c.eng.onLoad(c, st, l, i.Pos())
+		mu := c.guardLoad(st, l, i.Pos())
 		v := c.load(st, l, i.Type())
 		v.T = i.Type()
+		c.afterGuardedLoad(st, l, &v, mu)
 		fr.vals[i] = v
 	case token.NOT:
 		fr.vals[i] = Val{T: i.Type(), E: Not(x.E)}
@@ -602,7 +613,11 @@ func (c *FnCtx) execSlice(fr *Frame, st *State, i *ssa.Slice) {
 		c.assume(st, g)
 		// slicing a nil slice yields a nil slice
 		e := fmt.Sprintf("(mk-slice (s-arr %[1]s) (+ (s-off %[1]s) %[2]s) (- %[3]s %[2]s) (- %[4]s %[2]s))", x.E, lo, hi, mx)
-		fr.vals[i] = Val{T: i.Type(), E: c.sc.Define("sl", sSlice, e)}
+		rs := c.sc.Define("sl", sSlice, e)
+		if mu, ok := c.guardOf["(s-arr "+x.E+")"]; ok {
+			c.guardOf["(s-arr "+rs+")"] = mu
+		}
+		fr.vals[i] = Val{T: i.Type(), E: rs}
 	case *types.Basic:
 		lo, hi := "0", "(strlen "+x.E+")"
 		if i.Low != nil {
@@ -682,6 +697,9 @@ func (c *FnCtx) appendSlice(st *State, s, t Val, pos token.Pos) Val {
 	res = Ite("(and (= (s-arr "+s.E+") 0) (= "+n+" 0))", s.E, res)
 	c.eng.onAlloc(c, st, fresh, nil)
 	rv := c.sc.Define("ap", sSlice, res)
+	if mu, ok := c.guardOf["(s-arr "+s.E+")"]; ok {
+		c.guardOf["(s-arr "+rv+")"] = mu // appending in place keeps the shared array
+	}
 	if ls, ok1 := c.sliceLenBound(s.E); ok1 {
 		if lt, ok2 := c.sliceLenBound(t.E); ok2 {
 			_, exS := c.sliceLen[s.E]
@@ -805,4 +823,41 @@ func (c *FnCtx) execNext(fr *Frame, st *State, i *ssa.Next) {
 	st.locals[rs.pos] = Val{T: types.Typ[types.Int], E: c.sc.Define("rpos", sInt, "(+ "+pos+" 1)")}
 	c.assume(st, "(=> "+ok+" "+And(c.ty.Inv(rs.mapT.Key(), k), c.ty.Inv(rs.mapT.Elem(), v), c.refBound(rs.mapT.Elem(), v, st))+")")
 	fr.vals[i] = Val{T: i.Type(), Tuple: []Val{{T: types.Typ[types.Bool], E: ok}, {T: rs.mapT.Key(), E: k}, {T: rs.mapT.Elem(), E: v}}}
+}
+
+// singleStoreCell: the address-taken local is written exactly once (its initialisation) and otherwise only read or
+// captured by closures that do not write it; then the cell behaves like a constant whatever unknown code runs.
+func singleStoreCell(a *ssa.Alloc) bool {
+	stores := 0
+	ok := true
+	var scan func(fn *ssa.Function, v ssa.Value)
+	scan = func(fn *ssa.Function, v ssa.Value) {
+		for _, ref := range *v.Referrers() {
+			switch r := ref.(type) {
+			case *ssa.Store:
+				if r.Addr == v {
+					stores++
+				} else {
+					ok = false // the address itself is stored somewhere
+				}
+			case *ssa.UnOp:
+				// load
+			case *ssa.DebugRef:
+			case *ssa.MakeClosure:
+				cf := r.Fn.(*ssa.Function)
+				for k, b := range r.Bindings {
+					if b == v && k < len(cf.FreeVars) {
+						scan(cf, cf.FreeVars[k])
+					}
+				}
+			default:
+				ok = false
+			}
+		}
+	}
+	if a.Referrers() == nil {
+		return false
+	}
+	scan(a.Parent(), a)
+	return ok && stores == 1
 }
